@@ -64,7 +64,7 @@ PROBES = [
     "reapplied_to_own_result",
     "document_as_text",
 ]
-FORMS = ["dicts", "text", "file", "builder_str", "builder_ptr", "asdicts", "stringio"]
+FORMS = ["dicts", "text", "file", "builder_str", "builder_ptr", "asdicts", "stringio", "tuple", "generator", "bytesio"]
 ALL_KINDS = ["add", "remove", "replace", "move", "copy", "test", "addne", "addap"]
 
 
@@ -227,6 +227,12 @@ def execute(spec: Dict[str, Any], ctx: Ctx) -> None:
                 p = JSONPatch(json.dumps(ops))
             elif form == "stringio":
                 p = JSONPatch(io.StringIO(json.dumps(ops, indent=1)))
+            elif form == "bytesio":
+                p = JSONPatch(io.BytesIO(json.dumps(ops).encode()))
+            elif form == "tuple":
+                p = JSONPatch(tuple(ops))
+            elif form == "generator":
+                p = JSONPatch(o for o in ops)  # any iterable of operation mappings, also a one-shot one
             elif form == "file":
                 p = JSONPatch(SimFile(json.dumps(ops).encode(), text=ctx.seed % 2 == 0, name=f"patch{L}.json"))
             elif form in ("builder_str", "builder_ptr"):
